@@ -53,16 +53,20 @@ def impl_exec(ops):
     for op in ops:
         t = op.split()
         try:
+            # every line carries the value twice: once against the MODEL (tables translated from score.py), once against
+            # the LAW (Spec/Scoring.lean: formulas); "-" where the law needs a declarer and there is none
+            law_undefined = False
             if t[0] == 'S.bid':
                 r = calc_bid_score(Bid.int_to_bid(int(t[1])), t[2] == '1', t[3] == '1', t[4] == '1', int(t[5]))
             else:
                 fb = None if t[1] == '-' else Bid.Pass if t[1] == 'P' else Bid.int_to_bid(int(t[1]))
+                law_undefined = t[5] == '-' and t[1] not in ('-', 'P')
                 c = Contract(final_bid=fb, x=t[2] == '1', xx=t[3] == '1', vul=vmap[t[4]],
                              declarer=None if t[5] == '-' else Player[t[5]])
                 r = calc_score(c, int(t[6]))
-            out.append(str(int(r)))
+            out.append(f'{int(r)} {"-" if law_undefined else int(r)}')
         except Exception:
-            out.append('ERR')
+            out.append('ERR -' if law_undefined else 'ERR ERR')
     return out
 
 
